@@ -178,10 +178,10 @@ def ipm_files(ctx, n, max_total):
 def tasks(tier, seed):
     t = []
     if tier == 'quick':
-        for i in range(8):
-            t.append(('vbs_files', dict(n=3, max_total=3200)))
-        for i in range(4):
-            t.append(('ipm_files', dict(n=2, max_total=2600)))
+        for i in range(11):
+            t.append(('vbs_files', dict(n=5, max_total=3200)))
+        for i in range(5):
+            t.append(('ipm_files', dict(n=4, max_total=2600)))
     else:
         for i in range(24):
             t.append(('vbs_files', dict(n=8, max_total=12000)))
